@@ -120,3 +120,25 @@ package twig
 //@ func isBlockStartToken props: C05 C13
 //@   function
 //@   ensures ret == (tokenType == TOKEN_BLOCK_START || tokenType == TOKEN_BLOCK_START_TRIM)
+
+// ---------------------------------------------------------------- whitespace control (C13)
+// A dash trims exactly the whitespace set {space, tab, LF, CR} from the neighbouring text token
+// and changes nothing else: token types, lines and all other values are unchanged.
+
+//@ func trimLeadingWhitespace props: C13
+//@   function
+//@   ensures ret == str_trimleft(s, " \t\n\r")
+//@ func trimTrailingWhitespace props: C13
+//@   function
+//@   ensures ret == str_trimright(s, " \t\n\r")
+
+//@ define isStartTrim(T) (T == TOKEN_VAR_START_TRIM || T == TOKEN_BLOCK_START_TRIM)
+//@ define isEndTrim(T) (T == TOKEN_VAR_END_TRIM || T == TOKEN_BLOCK_END_TRIM)
+//@ define wsL(J, I) ite(J >= 1 && J - 1 < I && isEndTrim(old(t.result[J-1]).Type) && old(t.result[J]).Type == TOKEN_TEXT, str_trimleft(old(t.result[J]).Value, " \t\n\r"), old(t.result[J]).Value)
+//@ define wsR(J, I) ite(J + 1 < I && isStartTrim(old(t.result[J+1]).Type) && old(t.result[J]).Type == TOKEN_TEXT, str_trimright(wsL(J, I), " \t\n\r"), wsL(J, I))
+//@ define wsDone(I) forall j int :: 0 <= j && j < len(t.result) ==> t.result[j].Type == old(t.result[j]).Type && t.result[j].Line == old(t.result[j]).Line && t.result[j].Value == wsR(j, I)
+
+//@ func (*ZeroAllocTokenizer).ApplyWhitespaceControl props: C13
+//@   modifies elems(t.result)
+//@   loop 1 invariant 0 <= i && i <= len(t.result) && wsDone(i)
+//@   ensures wsDone(len(t.result))
